@@ -66,3 +66,18 @@ pub fn b62(bytes : &[u8; 32]) -> String
 pub fn ticket_of(data : &[u8]) -> String { b62(&sha256(data)) }
 
 pub fn hex(bytes : &[u8]) -> String { bytes.iter().map(|b| format!("{:02x}", b)).collect() }
+
+/*  is `s` the 43-character base-62 encoding of a value below 2^256?  (independent of the crate's decoder) */
+pub fn b62_wellformed(s : &str) -> bool
+{
+    if s.len() != 43 || !s.bytes().all(|b| ALPHA.contains(&b)) { return false; }
+    let mut n = [0u32; 9];      // little-endian limbs, one spare for overflow
+    for b in s.bytes().rev()
+    {
+        let d = ALPHA.iter().position(|a| *a == b).unwrap() as u64;
+        let mut carry = d;
+        for limb in n.iter_mut() { let cur = (*limb as u64) * 62 + carry; *limb = cur as u32; carry = cur >> 32; }
+        if carry != 0 { return false; }
+    }
+    n[8] == 0
+}
